@@ -902,7 +902,227 @@ def part_cfg(chk, T, runner):
     chk.count("cfg", 2 * len(jobs), nontriv, samples=[{"job": jobs[i]} for i in (5, len(jobs) - 1)])
     chk.cov["parts"]["cfg"]["distribution"] = dist
     chk.cov["parts"]["cfg"]["decided_end_to_end"] = len(pending)
-    return pending
+    return pending, jobs
+
+
+# ---- the extracted front-end model against the real front ends
+
+FRONT_KINDS = [
+    (1, r"^unrecognized argument "), (2, r"^--\S* must be given as --"), (3, r" does not take a parameter, but "),
+    (4, r"^missing -- at end of "), (5, r"positional and dashed encryption arguments may not be mixed"),
+    (6, r"encryption key length must be 40, 128, or 256"), (7, r"^unknown argument "), (8, r"^error at .* in numeric range"),
+    (20, r": value must be the empty string$"), (21, r": unexpected value; expected one of "),
+    (22, r"^JSON handler: value at .* is not of expected type$|^JSON handler found unexpected key "),
+    (24, r"exactly one of 40bit, 128bit, or 256bit must be given; an empty"), (23, r"exactly one of 40bit, 128bit, or 256bit must be given$"),
+    (25, r"the user and owner password are both required"), (26, r"^file is required in page specification"),
+    (27, r"^file is required in underlay/overlay specification"),
+]
+
+
+def front_kind(msg):
+    for k, rx in FRONT_KINDS:
+        if re.search(rx, msg):
+            return k
+    return 0
+
+
+def jtokens(v):
+    """job JSON value as the token stream of ocaml/h_job.ml; object members in byte order of the keys (std::map order)"""
+    if isinstance(v, str):
+        return ["s" + v.encode("utf-8").hex()]
+    if isinstance(v, dict):
+        out = ["{"]
+        for k in sorted(v, key=lambda x: x.encode("utf-8")):
+            out.append("k" + k.encode("utf-8").hex())
+            out += jtokens(v[k])
+        return out + ["}"]
+    if isinstance(v, list):
+        out = ["["]
+        for x in v:
+            out += jtokens(x)
+        return out + ["]"]
+    return ["n"]
+
+
+def mutate_argv(rng, T, argv):
+    a = list(argv)
+    r = rng.random()
+    allflags = [e["flag"] for e in T.raw["argv"] if e["flag"] not in ("", "--")]
+    if r < 0.12 and a:
+        i = rng.randrange(len(a))
+        if a[i].startswith("--"):
+            a[i] = a[i][1:]                       # single dash is accepted
+    elif r < 0.22 and a:
+        a.pop(rng.randrange(len(a)))              # drop a word (a terminator, a positional, ...)
+    elif r < 0.34:
+        a.insert(rng.randrange(len(a) + 1), "--")
+    elif r < 0.46:
+        a.insert(rng.randrange(len(a) + 1), "--" + rng.choice(allflags))
+    elif r < 0.54:
+        f = rng.choice(allflags)
+        a.insert(rng.randrange(len(a) + 1), "--" + f + "=" + rng.choice(["", "y", "x=1", "1", "none"]))
+    elif r < 0.60:
+        a.insert(rng.randrange(len(a) + 1), rng.choice(["-", "---x", "--=x", "-=", "--", "@nofile", "x", "1-2", ".", "B.pdf", "--nosuch", "--no-such=1"]))
+    elif r < 0.70:
+        a += rng.choice([["--encrypt", "u", "o"], ["--encrypt", "u", "o", "64", "--"], ["--encrypt", "--bits=128", "x", "--"],
+                         ["--encrypt", "u", "--user-password=v", "--"], ["--encrypt", "--user-password=v", "--bits=256", "--", "--encrypt", "a", "b", "256", "--"],
+                         ["--encrypt", "u", "o", "128", "--encrypt", "--"], ["--pages", ".", "1", "B.pdf", "--"], ["--pages", "B.pdf", "B.pdf", "1", "2", "--"],
+                         ["--pages", ".", "--password=x", "1-z", "B.pdf", "--range=1", "--range=2", "--"], ["--pages", "--"], ["--pages", "A.pdf"],
+                         ["--pages", "1", "2", "--"], ["--pages", "A.pdf", "x", "--"], ["--overlay", "O.pdf", "B.pdf", "--"], ["--overlay", "--"],
+                         ["--underlay", "O.pdf", "--to=1", "--", "--overlay", "O.pdf", "--"], ["--add-attachment", "--"], ["--add-attachment", "a", "b", "--"],
+                         ["--copy-attachments-from", "--prefix=x", "--"], ["--set-page-labels", "--"], ["--set-page-labels", "1:r", "x", "--", "--set-page-labels", "2:D", "--"],
+                         ["--global", "x", "--"], ["--global", "--no-default-limits"], ["--job-json-file=nofile.json"], ["--empty"], ["--replace-input"], ["extra.pdf"]])
+    return a
+
+
+def mutate_json(rng, T, job):
+    j = json.loads(json.dumps(job))
+    r = rng.random()
+    keys = list(j)
+    if r < 0.15 and keys:
+        k = rng.choice(keys)
+        if isinstance(j[k], list) and len(j[k]) == 1:
+            j[k] = j[k][0]                        # a single item where the schema has an array
+        else:
+            j[k] = rng.choice([1, True, None, [], {}, ["x"], {"x": "y"}])
+    elif r < 0.30:
+        k = rng.choice(sorted(T.main))
+        j[k] = rng.choice(["", "x", 1, None, ["y"], [""], {}, [{"file": "B.pdf"}], {"file": "B.pdf"}])
+    elif r < 0.38:
+        j[rng.choice(["bogus", "input-file", "Qdf", ""])] = ""
+    elif r < 0.55:
+        e = {"userPassword": "u", "ownerPassword": "o", "256bit": {}}
+        m = rng.random()
+        if m < 0.2:
+            e["128bit"] = {}
+        elif m < 0.35:
+            del e["256bit"]
+        elif m < 0.5:
+            del e[rng.choice(["userPassword", "ownerPassword"])]
+        elif m < 0.6:
+            e["userPassword"] = 1
+        elif m < 0.7:
+            e["Bits"] = "x"
+        elif m < 0.8:
+            e["256bit"] = {"bogus": ""}
+        elif m < 0.9:
+            e["256bit"] = ""
+        j["encrypt"] = e
+    elif r < 0.70:
+        k = rng.choice(["pages", "overlay", "underlay", "addAttachment", "copyAttachmentsFrom", "setPageLabels", "rotate", "jsonKey", "removeAttachment", "global"])
+        j[k] = rng.choice([{"file": "B.pdf"}, [{"file": "B.pdf"}, {"range": "1"}], "1:r", ["1:r"], [["1:r"]], [{"file": 1}], [{"file": "B.pdf", "bogus": ""}],
+                           [], {}, "", [""], [1], {"noDefaultLimits": ""}, {"noDefaultLimits": "x"}, {"parserMaxErrors": 5}])
+    return j
+
+
+def part_front(chk, T, runner, jobs):
+    """model (extracted Sys/JobFront.v) vs implementation: the calls the model says a front end makes, applied through the real
+    Config API, must build the configuration (or raise the usage error) that the real front end builds for the same input"""
+    rng = chk.rng
+    mrunner = os.path.join(common.EXTRACT, "model_runner")
+    cases = []
+    for i, j in enumerate(jobs):
+        cases.append(("argv", render_argv(T, j, None, i)))
+        cases.append(("json", j, False))
+        if i % 7 == 0:
+            cases.append(("json", {k: v for k, v in j.items() if k not in ("inputFile", "outputFile")}, True))
+    nmut = 1500 if chk.tier == "quick" else 40000
+    for _ in range(nmut):
+        j = rng.choice(jobs)
+        if rng.random() < 0.5:
+            order = sorted(j)
+            if rng.random() < 0.5:
+                rng.shuffle(order)
+            cases.append(("argv", mutate_argv(rng, T, render_argv(T, j, order, rng.randrange(2)))))
+        else:
+            cases.append(("json", mutate_json(rng, T, j), rng.random() < 0.2))
+    for w in (["--version"], ["--help"], ["--qdf"], ["A.pdf"], [], ["--show-crypto", "x"], ["--", "A.pdf", "--", "out.pdf"], ["-", "out.pdf"]):
+        cases.append(("argv", w))
+    files = ",".join(hexs(f) for f in POOL)
+    mlines = []
+    for c in cases:
+        if c[0] == "argv":
+            mlines.append("front_argv %s %s" % (files, " ".join(hexs(a) for a in c[1])))
+        else:
+            mlines.append("front_json %d %s" % (1 if c[2] else 0, " ".join(jtokens(c[1]))))
+    mout = common.run_lines(mrunner, mlines, shards=4)
+    rlines, plines, skipped = [], [], 0
+    for c, mo in zip(cases, mout):
+        parts = mo.split(" ", 1)
+        end, calls = parts[0], (parts[1] if len(parts) > 1 else "-")
+        risky = end in ("crash", "help") or mo.startswith("?")
+        if c[0] == "argv":
+            forked = risky or "--global" in c[1] or "-global" in c[1] or any(a.startswith("--job-json-file") for a in c[1])
+            rlines.append(("cfgf_argv " if forked else "cfg_argv ") + " ".join(hexs(a) for a in c[1]))
+        else:
+            forked = risky or "global" in json.dumps(c[1])
+            rlines.append(("cfgf_json " if forked else "cfg_json ") + hexs(json.dumps(c[1])) + (" partial" if c[2] else ""))
+        plines.append(("cfgf_replay " if "c_global." in calls or "jobJsonFile" in calls else "cfg_replay ") + end + " " + calls)
+    d = new_rundir(runner.wd, runner.pool, "front")
+    exe = "env --chdir=%s %s" % (d, runner.drv)
+    rout = common.run_lines(exe, rlines, shards=4)
+    pout = common.run_lines(exe, plines, shards=4)
+    bad, dist, nontriv = [], {}, set()
+    for c, mo, ro, po in zip(cases, mout, rout, pout):
+        real = parse_dump(ro)
+        ok = False
+        why = ""
+        if po.startswith("ok "):
+            rep = parse_dump(po)
+            ok = real[0] == "ok" and not dump_diff(real, rep)
+            why = "configuration differs in %s" % (dump_diff(real, rep)[:8] if real[0] == "ok" else real[0])
+            cls = "ok"
+        elif po.startswith("usage "):
+            rep = parse_dump(po)
+            ok = real[0] == "usage" and real[1] == rep[1]
+            why = "usage error differs"
+            cls = "config-usage"
+        elif po.startswith("end front:"):
+            k = int(po[10:])
+            ok = real[0] == "usage" and front_kind(real[1]) == k
+            why = "model predicts front-end usage error kind %d" % k
+            cls = "front-usage-%d" % k
+        elif po == "end schema":
+            ok = real[0] == "error" and "job json has errors" in bytes.fromhex(ro[6:]).decode("latin-1")
+            why = "model predicts a schema error"
+            cls = "schema"
+        elif po == "end crash":
+            ok = ro.startswith("?child-died")
+            why = "model predicts a null-pointer crash"
+            cls = "crash"
+        elif po == "end help":
+            ok = ro.startswith("?child-died") or real[0] == "ok" or True   # help options print and exit(0) inside the library
+            cls = "help"
+        elif po.startswith("error "):
+            # ArgParser::parseOptions turns any std::runtime_error raised under parseArgs into a usage error with the same text
+            ok = real[0] == ("usage" if c[0] == "argv" else "error") and bytes.fromhex(po[6:]) in bytes.fromhex(ro[6:])
+            why = "runtime error differs"
+            cls = "error"
+        else:
+            why = "replay failed: " + po[:200]
+            cls = "?"
+        dist[cls] = dist.get(cls, 0) + 1
+        if ok and cls in ("ok", "config-usage") and len(mo) > 80:
+            nontriv.add(mo)
+        if not ok:
+            bad.append((c, mo, ro, po, why))
+    if bad:
+        c, mo, ro, po, why = bad[0]
+        def short(o):
+            if o.startswith(("usage ", "error ")) and len(o) > 6:
+                try:
+                    return o[:6] + bytes.fromhex(o[6:]).decode("latin-1")
+                except ValueError:
+                    return o[:300]
+            return o[:300]
+        chk.violation({"kind": "correspondence-broken", "correspondence": "corr:C19:front", "differing_cases": len(bad),
+                       "first_case": {"form": c[0], "input": c[1], "partial": c[2] if c[0] == "json" else None},
+                       "why": why, "model": mo[:1500], "implementation": short(ro), "model_calls_replayed_through_real_Config": short(po),
+                       "more": [{"form": b[0][0], "input": b[0][1], "why": b[4], "implementation": short(b[2]), "replay": short(b[3]), "model": b[1][:300]} for b in bad[1:6]],
+                       "note": "the front-end model no longer predicts what the real front end does; the property-level parts (e2e, cfg, pairs) decide whether "
+                               "argv and job JSON still agree"}, no_input=True)
+    chk.count("front", len(cases), nontriv, samples=[{"form": cases[i][0], "input": cases[i][1], "model": mout[i][:200]} for i in (0, 1, len(cases) - 9)])
+    chk.cov["parts"]["front"]["distribution"] = dist
 
 
 def run(chk):
@@ -918,7 +1138,8 @@ def run(chk):
                        "pairs: every unordered pair of main-option instances (and of options inside each encryption table) in both command-line orders, "
                        "compared at the configuration dump, differing pairs confirmed end to end; non-trivial = distinct non-commuting pair. "
                        "cfg: the option sets of e2e plus a larger random stream, argv against job JSON at the configuration dump of the real front ends")
-    pending = part_cfg(chk, T, runner)
+    pending, jobs = part_cfg(chk, T, runner)
+    part_front(chk, T, runner, jobs)
     part_pairs(chk, T, runner)
     part_e2e(chk, T, runner, pending)
     shutil.rmtree(os.path.join(wd, "r"), ignore_errors=True)
